@@ -21,6 +21,13 @@ class Note:
     async def on_field_execution(self, directive_args, next_resolver, parent, args, ctx, info):
         if isinstance(ctx, dict) and "notes" in ctx: ctx["notes"].append(directive_args.get("t"))
         return await next_resolver(parent, args, ctx, info)
+    async def on_field_collection(self, directive_args, next_directive, field_node, ctx):
+        # a collection hook that depends on the REQUEST's context: the field is left out for requests that ask for it
+        node = await next_directive(field_node, ctx)
+        if isinstance(ctx, dict) and ctx.get("hide"):
+            from tartiflette.types.exceptions.tartiflette import SkipCollection
+            raise SkipCollection()
+        return node
 
 def calls_of(calls, req):
     """what the resolvers of one request received (coordinate, path, arguments), order-independent"""
@@ -58,17 +65,17 @@ def explore(tier, seed):
                     variables, _ = dg.variables_for(opvars[k2], invalid=0.1)
                     pool.append((q, ops[k2][1], variables))
         pool += [(INTROSPECTION, None, None), ("{ __typename ", None, None), ("{ nope }", None, None), (pool[0][0], "Unknown", None)]
-        def solo(engine_b, req, idx=0):
+        def solo(engine_b, req, idx=0, hide=False):
             hub = MultiHub(1)
             engine_b.gate = hub.gate
-            cx = {"req": 0, "tag": f"solo{idx}", "notes": []}
+            cx = {"req": 0, "tag": f"solo{idx}", "notes": [], "hide": hide}
             engine_b.calls.clear()
             (res,), _, _ = drive(loop, lambda: [engine_b.engine.execute(req[0], operation_name=req[1], variables=req[2], context=cx)], hub.hubs, lambda p: 0)
             engine_b.gate = None
             return res + (sorted(map(str, cx["notes"])) + calls_of(engine_b.calls, 0),)
         solo_fresh = {}
         for i, req in enumerate(pool):
-            r = solo(fresh, req)
+            r = solo(fresh, req, hide=(i % 3 == 1))
             solo_fresh[i] = (canon(r[1]) if r[0] == "ok" else f"raised {type(r[1]).__name__}") + "|notes=" + json.dumps(r[2])
         for fi in range(nfam):
             if time.time() - t0 > (110 if tier == "quick" else 1500): break
@@ -79,7 +86,7 @@ def explore(tier, seed):
             b.calls.clear()
             rr = random.Random(rng.getrandbits(32))
             try:
-                ctxs = [{"req": j, "tag": f"r{j}", "notes": []} for j in range(n)]
+                ctxs = [{"req": j, "tag": f"r{j}", "notes": [], "hide": idxs[j] % 3 == 1} for j in range(n)]
                 results, trace, left = drive(loop, lambda: [b.engine.execute(pool[i][0], operation_name=pool[i][1], variables=pool[i][2], context=ctxs[j]) for j, i in enumerate(idxs)],
                                              hub.hubs, lambda p: rr.randrange(len(p)))
             except Exception as e:
@@ -103,7 +110,7 @@ def explore(tier, seed):
             if left: pr.append("tasks left pending after all requests returned")
             # afterwards the engine behaves as a fresh one
             probe = rng.randrange(len(pool))
-            r2 = solo(b, pool[probe], 1)
+            r2 = solo(b, pool[probe], 1, hide=(probe % 3 == 1))
             got2 = (canon(r2[1]) if r2[0] == "ok" else f"raised {type(r2[1]).__name__}") + "|notes=" + json.dumps(r2[2])
             if got2 != solo_fresh[probe]: pr.append("a request issued afterwards behaves differently from the same request on a fresh engine")
             if pr:
